@@ -10,4 +10,8 @@ def components(ctx):
 
 
 def check(ctx):
-    return vlib.standard_check(ctx, MODULES, components(ctx), assumptions=ec.ASSUMPTIONS, trusted=ec.TRUSTED)
+    # timers live in datastruct/timerqueue.c + ptrheap.c (files of this property): their model, theorems and components
+    # (pointer heap and timer queue against the ideal priority queue, handle consistency) are C13's and run here as well.
+    from props import c13 as _c13
+    return vlib.standard_check(ctx, MODULES + _c13.MODULES, components(ctx) + _c13.components(ctx),
+                               assumptions=ec.ASSUMPTIONS, trusted=ec.TRUSTED)
